@@ -531,6 +531,8 @@ pub(crate) struct MergeJoin<Left: Executor, Right: Executor> {
     right_exhausted: bool,
     left_matched: bool,
     right_matched: Vec<bool>,
+    /// every right row read so far (RIGHT / FULL joins only), parallel to `right_matched`
+    right_rows: Vec<Row>,
     emitting_unmatched_right: bool,
     unmatched_right_idx: usize,
 
@@ -563,6 +565,7 @@ impl<Left: Executor, Right: Executor> MergeJoin<Left, Right> {
             right_exhausted: false,
             left_matched: false,
             right_matched: Vec::new(),
+            right_rows: Vec::new(),
             emitting_unmatched_right: false,
             unmatched_right_idx: 0,
             stats: ExecutionStats::default(),
@@ -575,7 +578,11 @@ impl<Left: Executor, Right: Executor> MergeJoin<Left, Right> {
 
     fn compare_keys(&self, left_keys: &[DataType], right_keys: &[DataType]) -> Ordering {
         for (l, r) in left_keys.iter().zip(right_keys.iter()) {
-            if matches!(l, DataType::Null) || matches!(r, DataType::Null) {
+            // A row with a NULL key matches nothing: skip it on its own side only.
+            if matches!(l, DataType::Null) {
+                return Ordering::Less;
+            }
+            if matches!(r, DataType::Null) {
                 return Ordering::Greater;
             }
             match l.partial_cmp(r) {
@@ -609,6 +616,7 @@ impl<Left: Executor, Right: Executor> MergeJoin<Left, Right> {
 
                 if matches!(self.join_type, JoinType::Right | JoinType::Full) {
                     self.right_matched.push(false);
+                    self.right_rows.push(self.current_right.clone().unwrap());
                 }
             }
             None => {
@@ -636,6 +644,9 @@ impl<Left: Executor, Right: Executor> MergeJoin<Left, Right> {
 
             if keys_match(target_keys, &right_keys) {
                 self.right_buffer.push(right_row.clone());
+                if let Some(matched) = self.right_matched.last_mut() {
+                    *matched = true;
+                }
                 self.advance_right()?;
             } else {
                 break;
@@ -660,12 +671,16 @@ impl<Left: Executor, Right: Executor> Executor for MergeJoin<Left, Right> {
 
     fn next(&mut self) -> RuntimeResult<Option<Row>> {
         if self.emitting_unmatched_right {
+            // right rows behind the last left key have not been read yet
+            while !self.right_exhausted {
+                self.advance_right()?;
+            }
             while self.unmatched_right_idx < self.right_matched.len() {
                 let idx = self.unmatched_right_idx;
                 self.unmatched_right_idx += 1;
 
-                if !self.right_matched[idx] && idx < self.right_buffer.len() {
-                    let row = nulls_with_right(&self.right_buffer[idx], self.left_cols());
+                if !self.right_matched[idx] {
+                    let row = nulls_with_right(&self.right_rows[idx], self.left_cols());
                     self.stats.rows_produced += 1;
                     return Ok(Some(row));
                 }
